@@ -374,20 +374,43 @@ def run(ctx):
 
             if not isinstance(v_, _Unk):
                 penv[x.targets[0].id] = v_
+    # the templates are whatever is handed to strptime as the format: a constant, or the variable of a loop (or comprehension clause)
+    # over a constant; the strptime call may sit in a helper (`_strptime_or_none(s, tmpl)`), then the format is the helper's argument
+    fmt_sites = []   # (call node in prx, format expression in prx)
+    from sa.inline import resolve_callee as _rc18
+
     for x in ast.walk(prx):
-        # the templates are whatever is handed to strptime as the format: a constant, or the variable of a loop over a constant
         if isinstance(x, ast.Call) and isinstance(x.func, ast.Attribute) and x.func.attr == "strptime" and len(x.args) == 2:
-            t = x.args[1]
-            loops_ = [lp for lp in ast.walk(prx) if isinstance(lp, ast.For) and isinstance(lp.target, ast.Name) and isinstance(t, ast.Name)
-                      and lp.target.id == t.id and any(y is x for y in ast.walk(lp))]
-            if loops_:
-                it = prog.const(loops_[0].iter, prs.module, penv, el)
-                if isinstance(it, (tuple, list)) and all(isinstance(q, str) for q in it):
-                    templates = tuple(it)
-            else:
-                tv = prog.const(t, prs.module, penv, el)
-                if isinstance(tv, str):
-                    templates = (templates or ()) + (tv,)
+            fmt_sites.append((x, x.args[1]))
+        elif isinstance(x, ast.Call):
+            rc_ = _rc18(prog, prs, x, {})
+            if rc_ is not None and hasattr(rc_[0], "node") and rc_[0].node is not prs.node:
+                hn = rc_[0].node
+                hparams = [a.arg for a in hn.args.args][(1 if rc_[1] else 0):]
+                for y in ast.walk(hn):
+                    if isinstance(y, ast.Call) and isinstance(y.func, ast.Attribute) and y.func.attr == "strptime" and len(y.args) == 2 \
+                            and isinstance(y.args[1], ast.Name) and y.args[1].id in hparams:
+                        k_ = hparams.index(y.args[1].id)
+                        arg = x.args[k_] if k_ < len(x.args) else next((kw.value for kw in x.keywords if kw.arg == y.args[1].id), None)
+                        if arg is not None:
+                            fmt_sites.append((x, arg))
+    for x, t in fmt_sites:
+        binders = []
+        if isinstance(t, ast.Name):
+            for lp in ast.walk(prx):
+                if isinstance(lp, ast.For) and isinstance(lp.target, ast.Name) and lp.target.id == t.id and any(y is x for y in ast.walk(lp)):
+                    binders.append(lp.iter)
+                if isinstance(lp, (ast.ListComp, ast.GeneratorExp, ast.SetComp)) and any(y is x for y in ast.walk(lp)):
+                    binders += [g.iter for g in lp.generators if isinstance(g.target, ast.Name) and g.target.id == t.id]
+        if binders:
+            it = prog.const(binders[0], prs.module, penv, el)
+            if isinstance(it, (tuple, list)) and all(isinstance(q, str) for q in it):
+                templates = tuple(it)
+        else:
+            tv = prog.const(t, prs.module, penv, el)
+            if isinstance(tv, str):
+                templates = (templates or ()) + (tv,)
+    for x in ast.walk(prx):
         if isinstance(x, ast.Subscript) and isinstance(x.slice, ast.Slice) and x.slice.lower is None and x.slice.upper is not None:
             k_ = prog.const(x.slice.upper, prs.module, penv, el)
             if isinstance(k_, int):
@@ -528,6 +551,17 @@ def run(ctx):
                 lit = prog.const(e.test.comparators[0], off.module)
                 truth = (lit == sign_char) if isinstance(e.test.ops[0], ast.Eq) else (lit != sign_char)
                 return ev(e.body if truth else e.orelse)
+            # a table keyed by the sign character: `{"+": -1, "-": 1}[sign]` / `.get(sign, d)` (the table may be a class constant)
+            if isinstance(e, ast.Subscript) and dotted(e.slice) == signvar:
+                tb = prog.const(e.value, off.module, None, el)
+                if isinstance(tb, dict) and sign_char in tb and isinstance(tb[sign_char], int):
+                    return Poly.const(tb[sign_char])
+                raise ValueError("sign table `%s`" % ast.unparse(e))
+            if isinstance(e, ast.Call) and isinstance(e.func, ast.Attribute) and e.func.attr == "get" and e.args and dotted(e.args[0]) == signvar:
+                tb = prog.const(e.func.value, off.module, None, el)
+                if isinstance(tb, dict) and sign_char in tb and isinstance(tb[sign_char], int):
+                    return Poly.const(tb[sign_char])
+                raise ValueError("sign table `%s`" % ast.unparse(e))
             if isinstance(e, ast.Call) and dotted(e.func) == "int" and isinstance(e.args[0], ast.Name) and isinstance(env.get(e.args[0].id), tuple):
                 return Poly.sym(env[e.args[0].id][1])
             if isinstance(e, ast.Name):
